@@ -114,7 +114,7 @@ def materialise(case):
     # The directory name is a function of the case alone: path strings take part in the behaviour under test
     # (their hashes order any set they are put in), so the worker, its helper interpreters and a later replay
     # must all see the same paths.
-    core = {k: v for k, v in case.items() if k in ('kind', 'prog', 'spec', 'spec_b', 'path', 'requests', 'req_seed')}
+    core = {k: v for k, v in case.items() if k in ('kind', 'prog', 'spec', 'spec_b', 'libs', 'path', 'requests', 'req_seed')}
     root = '/tmp/vsimc17-%s-%s' % (case.get('_ns') or NS, prng.digest(core))
     shutil.rmtree(root, ignore_errors=True)
     os.makedirs(root)
@@ -125,7 +125,15 @@ def materialise(case):
             G.write_project(os.path.join(root, 'b'), case['spec_b'])
         else:
             G.write_project(root, case['spec'])
+        for k, lib in enumerate(case.get('libs') or []):
+            # directories on sys.path that are not source roots (site-packages, PYTHONPATH entries); some module
+            # names exist in more than one of them
+            G.write_project(os.path.join(root, 'lib%d' % k), lib)
     return root
+
+
+def lib_dirs(root, case):
+    return [os.path.join(root, 'lib%d' % k) for k in range(len(case.get('libs') or []))]
 
 
 def new_project(root, case):
@@ -155,6 +163,8 @@ def answers(case, requests, idseeds, repeat=True):
     asked a second time on the same project and once more on a fresh project (all must agree)."""
     root = materialise(case)
     out = {}
+    syspath = list(sys.path)
+    sys.path.extend(lib_dirs(root, case))
     try:
         for s in idseeds:
             idhash.install(s)
@@ -172,6 +182,7 @@ def answers(case, requests, idseeds, repeat=True):
             finally:
                 idhash.uninstall()
     finally:
+        sys.path[:] = syspath
         shutil.rmtree(root, ignore_errors=True)
     return out
 
@@ -232,9 +243,36 @@ def has_alternatives(ans):
     return isinstance(v, list) and any(isinstance(x, list) and len(x) >= 2 and isinstance(x[0], dict) for x in v)
 
 
+def _module_requests(mn, k0):
+    return [{'kind': 'assist', 'source': 'import %s\n%s.\n' % (mn, mn), 'position': [2, len(mn) + 1], 'file': 'zqmain.py', 'multi': True},
+            {'kind': 'location', 'source': 'from %s import %s\nzr = %s\n' % (mn, k0, k0), 'position': [2, 5 + len(k0)],
+             'file': 'zqmain.py', 'multi': True},
+            {'kind': 'exports', 'module': mn, 'file': 'zqmain.py', 'source': '', 'position': None, 'multi': True}]
+
+
+def extra_root_requests(case):
+    """(before, after): requests through modules that exist only in a lower-priority place, and through modules
+    whose name exists in two places (the first place must win whatever was looked up before)."""
+    before, after = [], []
+    names_a = {m['name'] for m in case['spec']['modules']}
+    for m in (case.get('spec_b') or {}).get('modules', []):
+        if m['name'] not in names_a and not m.get('init'):
+            before += _module_requests(m['name'], 'K0_' + G.short(m['name']))
+    libs = case.get('libs') or []
+    done = set()
+    for k, lib in enumerate(libs):
+        for m in lib['modules']:
+            if m['name'] in done:
+                continue
+            done.add(m['name'])
+            places = sum(1 for l in libs for x in l['modules'] if x['name'] == m['name'])
+            (before if places == 1 and k > 0 else after).extend(_module_requests(m['name'], m['iface']['classes'][0]))
+    return before, after
+
+
 def project_requests(case, rng):
     spec = case['spec']
-    reqs = []
+    reqs, tail = extra_root_requests(case)
     for m in spec['modules']:
         for mu in m['iface'].get('multis', []):
             mn = m['name']
@@ -256,7 +294,7 @@ def project_requests(case, rng):
         reqs.append({'kind': q['kind'], 'source': q['source'], 'position': q['position'], 'file': q['file']})
     for q in G.cycle_requests(rng, spec)[:6]:
         reqs.append(dict(q, multi=True))
-    return reqs
+    return reqs + tail
 
 
 def gen_case(seed, i, mode):
@@ -280,8 +318,27 @@ def gen_case(seed, i, mode):
             if m.get('init') or r.random() < 0.6:
                 tmp['modules'][k] = G.mutate_module(r, tmp, k)
                 mods_b.append(tmp['modules'][k])
+        if r.random() < 0.6:
+            # and a module that exists only there
+            mods_b.append(_plain_module('zqonlyb', 'b'))
         case['spec_b'] = {'modules': mods_b}
+    if r.random() < 0.4:
+        n = r.choice((2, 2, 3))
+        libs = []
+        for k in range(n):
+            mods = [_plain_module('zqlib', 'lib%d' % k)]
+            if r.random() < 0.7:
+                mods.append(_plain_module('zqlibonly%d' % k, 'lib%d' % k))
+            libs.append({'modules': mods})
+        case['libs'] = libs
     return case
+
+
+def _plain_module(name, tag):
+    k0 = 'K0_' + name
+    return {'name': name, 'version': 1, 'iface': {'classes': [k0], 'funcs': [], 'insts': [], 'multis': []},
+            'items': [['class', k0, [], ['ca_%s_%s' % (name, tag)], [['me_' + k0, ['sa_%s_%s' % (name, tag)]]]],
+                      ['assign', 'x_%s_%s' % (name, tag), '1']]}
 
 
 def file_requests(case):
